@@ -280,6 +280,15 @@ def get_traces_2D(
         for s in sources
         if not (isinstance(s, magpy.Collection) and not s.sources_all)
     ]
+    if sumup:
+        # a displayed collection stands for all sources of its tree, they are not summed twice
+        in_colls = {
+            id(sub_s)
+            for s in sources
+            if isinstance(s, magpy.Collection)
+            for sub_s in s.children_all
+        }
+        sources = [s for s in sources if id(s) not in in_colls]
     sensors = format_obj_input(objects, allow="sensors+collections")
     sensors = [
         sub_s
